@@ -25,6 +25,11 @@ package main
 //              step = (ActionResult incMaxEventSizeExceeded #log cutflag)   #log only for ActionPass
 //              late = (#log ...) of the passed events, re-read at the end
 //              panic = 0 | 1 slice bounds | 2 index | 3 Fatal/explicit | 9 escaped-oracle mismatch
+//                      | 8 the action changed bytes of event.Buf it did not append, or the label fields are not the allowed ones
+//            style bits 2-3 (style>>2) = the event's Buf when Do is called (the model ignores them; a pooled pipeline event
+//              keeps its Buf array from its previous life): 0 nil, 1 37 bytes in use with capacity 37, 2 empty with capacity
+//              4096, 3 1000 bytes in use with capacity 1024
+// which=4/5  = which 2 with allowed_pod_labels / allowed_node_labels set: 4 [app absent] / [zone], 5 [nope] / [nope]
 
 import (
 	"fmt"
@@ -222,9 +227,10 @@ func c15Meta() {
 	pod.Namespace = string(c15Item.Namespace)
 	pod.Name = string(c15Item.PodName)
 	pod.Status.ContainerStatuses = []corev1.ContainerStatus{{Name: string(c15Item.ContainerName), ContainerID: "containerd://" + string(c15Item.ContainerID)}}
-	pod.Labels = map[string]string{"app": "x"}
+	pod.Labels = map[string]string{"app": "x", "tier": "db", "pod-template-hash": "5f6d8c"}
 	meta.PutMeta(pod)
 	meta.SelfNodeName = "node_1"
+	meta.MetaData.NodeLabels = map[string]string{"zone": "a", "kubernetes.io/hostname": "n1"}
 }
 
 // the escaped form AppendEscapedString gives for a chunk of the given style
@@ -255,7 +261,54 @@ func c15K8sPanic(msg string) int {
 	return 3
 }
 
-func c15ExecK8s(cs hx.Sx) hx.Sx {
+// the k8s_*_label_* fields a passed event must carry, by label filter (which 2/3: no filter, 4, 5)
+func c15WantLabels(which int) map[string]string {
+	switch which {
+	case 4:
+		return map[string]string{"k8s_pod_label_app": "x", "k8s_node_label_zone": "a"}
+	case 5:
+		return map[string]string{}
+	}
+	return map[string]string{"k8s_pod_label_app": "x", "k8s_pod_label_tier": "db", "k8s_pod_label_pod-template-hash": "5f6d8c",
+		"k8s_node_label_zone": "a", "k8s_node_label_kubernetes.io/hostname": "n1"}
+}
+
+func c15LabelsOK(root *insaneJSON.Root, want map[string]string) bool {
+	n := 0
+	for _, f := range root.AsFields() {
+		name := f.AsString()
+		if !strings.HasPrefix(name, "k8s_pod_label_") && !strings.HasPrefix(name, "k8s_node_label_") {
+			continue
+		}
+		n++
+		v, ok := want[name]
+		if !ok || f.AsFieldValue().AsString() != v {
+			return false
+		}
+	}
+	return n == len(want)
+}
+
+func c15Buf(mode int) []byte {
+	fill := func(n, c int) []byte {
+		b := make([]byte, n, c)
+		for i := range b {
+			b[i] = byte('A' + i%23)
+		}
+		return b
+	}
+	switch mode {
+	case 1:
+		return fill(37, 37)
+	case 2:
+		return make([]byte, 0, 4096)
+	case 3:
+		return fill(1000, 1024)
+	}
+	return nil
+}
+
+func c15ExecK8s(which int, cs hx.Sx) hx.Sx {
 	c15Meta()
 	it := hx.Items(cs)
 	cf := hx.Items(it[0])
@@ -265,7 +318,15 @@ func c15ExecK8s(cs hx.Sx) hx.Sx {
 	}
 	ctl := &c15Ctl{}
 	p := &k8s.MultilineAction{}
-	p.Start(&k8s.Config{SplitEventSize: int(hx.Int(cf[1])), OnlyNode: hx.Truth(cf[4])}, c15Params(ctl, st))
+	kc := &k8s.Config{SplitEventSize: int(hx.Int(cf[1])), OnlyNode: hx.Truth(cf[4])}
+	switch which {
+	case 4:
+		kc.AllowedPodLabels, kc.AllowedNodeLabels = []string{"app", "absent"}, []string{"zone"}
+	case 5:
+		kc.AllowedPodLabels, kc.AllowedNodeLabels = []string{"nope"}, []string{"nope"}
+	}
+	wantLabels := c15WantLabels(which)
+	p.Start(kc, c15Params(ctl, st))
 
 	var roots []*insaneJSON.Root
 	var passed []*insaneJSON.Root
@@ -285,6 +346,8 @@ func c15ExecK8s(cs hx.Sx) hx.Sx {
 		} else {
 			f := hx.Items(ch)
 			style, raw, size, esc := int(hx.Int(f[0])), hx.Bytes(f[1]), int(hx.Int(f[2])), hx.Bytes(f[3])
+			bufMode := style >> 2 & 3
+			style &= 3
 			root = insaneJSON.Spawn()
 			roots = append(roots, root)
 			switch style {
@@ -310,8 +373,9 @@ func c15ExecK8s(cs hx.Sx) hx.Sx {
 			root.AddFieldNoAlloc(root, "k8s_namespace").MutateToString(string(c15Item.Namespace))
 			root.AddFieldNoAlloc(root, "k8s_container").MutateToString(string(c15Item.ContainerName))
 			root.AddFieldNoAlloc(root, "k8s_container_id").MutateToString(string(c15Item.ContainerID))
-			e = &pipeline.Event{Root: root, Size: size, SourceName: "k8s/x.log"}
+			e = &pipeline.Event{Root: root, Size: size, SourceName: "k8s/x.log", Buf: c15Buf(bufMode)}
 		}
+		before := append([]byte(nil), e.Buf...)
 		ctl.incs = 0
 		var res pipeline.ActionResult
 		msg := catchMsg(func() { res = p.Do(e) })
@@ -328,6 +392,14 @@ func c15ExecK8s(cs hx.Sx) hx.Sx {
 			log = root.Dig("log").AppendEscapedString(nil)
 			cut = root.Dig("cutoff") != nil
 			passed = append(passed, root)
+			if !kc.OnlyNode && !c15LabelsOK(root, wantLabels) {
+				pcode = 8
+				break
+			}
+		}
+		if len(e.Buf) < len(before) || string(e.Buf[:len(before)]) != string(before) {
+			pcode = 8 // the action may only append to event.Buf
+			break
 		}
 		steps = append(steps, hx.L(hx.I(int(res)), hx.I(ctl.incs), hx.B(log), hx.Bool(cut)))
 	}
@@ -339,8 +411,8 @@ func c15ExecK8s(cs hx.Sx) hx.Sx {
 }
 
 func c15Exec(which int, cs hx.Sx) hx.Sx {
-	if which == 2 || which == 3 {
-		return c15ExecK8s(cs)
+	if which >= 2 && which <= 5 {
+		return c15ExecK8s(which, cs)
 	}
 	return c15ExecJoin(which, cs)
 }
@@ -636,20 +708,14 @@ func c15Gen(c *hmain.Ctx) {
 	}
 
 	// ---- 5. k8s exhaustive: chunk sequences over a small alphabet of raw fragments
-	type kch struct {
-		style int
-		raw   string
-		size  int
-		esc   string
-	}
 	kSx := func(k kch) hx.Sx {
 		if k.style < 0 {
 			return hx.I(0)
 		}
-		return hx.L(hx.I(k.style), hx.S(k.raw), hx.I(k.size), hx.S(k.esc))
+		return hx.L(hx.I(k.style|k.buf<<2), hx.S(k.raw), hx.I(k.size), hx.S(k.esc))
 	}
 	cri := func(raw string) kch {
-		return kch{0, raw, len(raw) + 40, string(c15Escaped(0, []byte(raw)))}
+		return kch{style: 0, raw: raw, size: len(raw) + 40, esc: string(c15Escaped(0, []byte(raw)))}
 	}
 	kCfg := func(max, split int, cut, field, only bool) hx.Sx {
 		return hx.L(hx.I(max), hx.I(split), hx.Bool(cut), hx.Bool(field), hx.Bool(only))
@@ -813,7 +879,7 @@ func c15Gen(c *hmain.Ctx) {
 				seq = append(seq, kch{style: 2, size: 10})
 			case 1:
 				l := hx.Pick(r, lits)
-				seq = append(seq, kch{3, l, 10, string(c15Escaped(3, []byte(l)))})
+				seq = append(seq, kch{style: 3, raw: l, size: 10, esc: string(c15Escaped(3, []byte(l)))})
 			case 2:
 				seq = append(seq, kch{style: -1})
 			default:
@@ -822,6 +888,14 @@ func c15Gen(c *hmain.Ctx) {
 		}
 		c.Do("k8s-adversarial", 2, hx.L(kCfg(max, 4*look, cut, false, only), hx.List(seq, kSx)), len(seq) >= 2)
 	}
+}
+
+type kch struct {
+	style int
+	raw   string
+	size  int
+	esc   string
+	buf   int // event.Buf mode (style bits 2-3)
 }
 
 // the raw-level reading of the escaped fragment (checked oracle hypothesis, see trusted_base)
@@ -852,9 +926,10 @@ func c15EscOracle(raw, esc string) bool {
 
 func main() {
 	hmain.Run(&hmain.Prop{ID: "C15",
-		Rule: "join-exhaustive: every sequence over {start, continue, other, no-field, time-out} (time-outs only while busy) up to the tier's length (6 quick / 8 thorough) x max_event_size {0,4} x negate; join-any-timeouts: the same alphabet with unconstrained time-outs (len<=5); join-random / join-template: long sequences, real regexps / templates, oracle bits computed by the real matchers; k8s-exhaustive: every chunk sequence over 7 raw fragments + time-out x 5 configs; k8s-random, k8s-adversarial. Non-trivial = the sequence contains at least one run start (join) / one partial chunk (k8s) and has >= 2-3 events; distinct = distinct (sub-model, case) text.",
+		Rule: "join-exhaustive: every sequence over {start, continue, other, no-field, time-out} (time-outs only while busy) up to the tier's length (6 quick / 8 thorough) x max_event_size {0,4} x negate; join-any-timeouts: the same alphabet with unconstrained time-outs (len<=5); join-random / join-template: long sequences, real regexps / templates, oracle bits computed by the real matchers; k8s-exhaustive: every chunk sequence over 7 raw fragments + time-out x 5 configs; k8s-random, k8s-adversarial; thresholds: join-template-edges (lines ending exactly at the markers of the template matchers), join-/k8s-exhaustive-sample (quick tier: random sequences of the thorough tier's extra lengths 7-8 / 5), k8s-pooled-buf (event.Buf in use or with spare capacity, label filters), k8s-default-split (split_event_size 1000000 hit exactly and by one), k8s-huge-max (16 KiB chunks against max_event_size of 20000-65536 with and without cut-off). Non-trivial = the sequence contains at least one run start (join) / one partial chunk (k8s) and has >= 2-3 events; distinct = distinct (sub-model, case) text.",
 		Gen: func(c *hmain.Ctx) {
 			c15Gen(c)
+			c15GenThresholds(c)
 			// processor-level clauses on the real pipeline: a busy action only sees events of the stream
 			// it holds (or a time-out), runs are flushed by the stream time-out, streams are never merged
 			pipedrv.GenFamilies(c, pipedrv.PipeWhich, []pipedrv.Fam{
